@@ -63,6 +63,7 @@ void run_case(uint64_t idx, Rng& r) {
   const std::string fam = FAM_NAME[cell.fam];
   const uint64_t n = cell.n;
   const uint64_t base = r.next();
+  seed_order(r);
   describe("mc family=" + fam + " lg_k=" + std::to_string(cell.lg_k) + " n=" + std::to_string(n) + " (" + std::to_string(MULTS[cell.mi].num) + "/" +
            std::to_string(MULTS[cell.mi].den) + " k) trials=" + std::to_string(cell.trials) + " keybase=" + std::to_string(base));
   const bool small = small_range(cell.lg_k, n);
@@ -93,6 +94,7 @@ void run_case(uint64_t idx, Rng& r) {
       u.update(b);
       const cpc_sketch res = u.get_result();
       Trial x; x.c = read_chain(res); check_chain(x.c, fam, ctx); x.exact_class = small;
+      { const cpc_sketch res2 = u.get_result(); VF_CHECK(same_chain(read_chain(res2), x.c), "cpc_union|get_result|second-result-differs-from-first", ctx); }
       VF_CHECK(x.c.est == res.get_icon_estimate(), "cpc_union|result-estimate-is-not-icon", ctx);
       if (small) check_window(x.c.est, n, cell.lg_k, "cpc_union|small-range|estimate-outside-accuracy-window", ctx);
       tr.push_back(x);
